@@ -32,7 +32,7 @@ pub(super) fn check_selection_set<'doc>(
                 // Avoiding the entry API because we may have to modify the map in-between this `.get()`
                 // and the `.insert()`.
                 if let Some(fragment_depth) = fragment_depths.get(&spread.fragment_name) {
-                    if depth_so_far + *fragment_depth > MAX_LISTS_DEPTH {
+                    if depth_so_far + *fragment_depth >= MAX_LISTS_DEPTH {
                         return Err(RequestError {
                             message: "Maximum introspection depth exceeded".into(),
                             location: spread.location(),
